@@ -73,6 +73,19 @@ theorem lookup_refresh (m : List (Id × Entry)) (vals : List (Id × Cand)) (k : 
   | none => rfl
   | some e => simp only [absEntry, Option.map_some]; rw [abs_refreshEntry]
 
+theorem abs_progressEntry (t : Nat) (k : Id) (e : Entry) :
+    ((progressEntry t k e).snap.isSome, (progressEntry t k e).usable) = (e.snap.isSome, e.usable) := by
+  unfold progressEntry
+  split <;> rfl
+
+theorem lookup_progress (m : List (Id × Entry)) (t : Nat) (k : Id) :
+    absEntry (lookup (progress m t) k) = absEntry (lookup m k) := by
+  unfold progress
+  rw [lookup_mapVal m (progressEntry t) k]
+  cases lookup m k with
+  | none => rfl
+  | some e => simp only [absEntry, Option.map_some]; rw [abs_progressEntry]
+
 theorem keys_remove_nodup (m : List (Id × Entry)) (id : Id) (h : (Keys m).Nodup) : (Keys (remove m id)).Nodup := by
   unfold Keys remove
   exact List.Nodup.sublist (List.Sublist.map _ List.filter_sublist) h
@@ -89,6 +102,13 @@ theorem keys_insert_nodup (m : List (Id × Entry)) (id : Id) (e : Entry) (h : (K
 
 theorem keys_modify (m : List (Id × Entry)) (id : Id) (f : Entry → Entry) : Keys (modify m id f) = Keys m := by
   unfold Keys modify
+  rw [List.map_map]
+  apply List.map_congr_left
+  intro p _
+  rfl
+
+theorem keys_progress (m : List (Id × Entry)) (t : Nat) : Keys (progress m t) = Keys m := by
+  unfold Keys progress
   rw [List.map_map]
   apply List.map_congr_left
   intro p _
@@ -215,7 +235,7 @@ theorem fifo (cfg : Cfg) (w : W) (evs : List Ev) :
 /-- `none` = not registered; `some (reported, usable)` -/
 def specStep (id : Id) (st : Option (Bool × Bool)) : Applied → Option (Bool × Bool)
   | .add i => if i = id then some (false, false) else st
-  | .msg i (.source _ _ _) => if i = id then st.map (fun p => (true, p.2)) else st
+  | .msg i (.source _ _ _ _) => if i = id then st.map (fun p => (true, p.2)) else st
   | .msg i (.usability b) => if i = id then st.map (fun p => (p.1, b)) else st
   | .msg i .dropped => if i = id then none else st
 
@@ -252,7 +272,7 @@ theorem apply_spec (cfg : Cfg) (c : Ctrl) (hnd : (Keys c.srcs).Nodup) (a : Appli
       · subst h; simp [absEntry]
       · have : ¬ i = id := fun e => h e.symm
         simp [h, this]
-    | source snap vals steer =>
+    | source snap t vals steer =>
       simp only [applyOne, dispatch, sourceMessage, specStep]
       cases hl : lookup c.srcs i with
       | none =>
@@ -262,14 +282,24 @@ theorem apply_spec (cfg : Cfg) (c : Ctrl) (hnd : (Keys c.srcs).Nodup) (a : Appli
         · subst h; simp [hl, absEntry]
         · simp [h]
       | some e =>
-        simp only [updateClock_srcs]
-        refine ⟨by rw [keys_refresh, keys_modify]; exact hnd, ?_⟩
-        rw [lookup_refresh, lookup_modify]
-        by_cases h : id = i
-        · subst h
-          simp [hl, absEntry]
-        · have : ¬ i = id := fun e => h e.symm
-          simp [h, this]
+        simp only
+        split
+        · simp only [storeMsg]
+          refine ⟨by rw [keys_modify]; exact hnd, ?_⟩
+          rw [lookup_modify]
+          by_cases h : id = i
+          · subst h
+            simp [hl, absEntry]
+          · have : ¬ i = id := fun e => h e.symm
+            simp [h, this]
+        · simp only [updateClock_srcs, storeMsg]
+          refine ⟨by rw [keys_refresh, keys_progress, keys_modify]; exact hnd, ?_⟩
+          rw [lookup_refresh, lookup_progress, lookup_modify]
+          by_cases h : id = i
+          · subst h
+            simp [hl, absEntry]
+          · have : ¬ i = id := fun e => h e.symm
+            simp [h, this]
 
 theorem fold_spec (cfg : Cfg) (ops : List Applied) (c : Ctrl) (hnd : (Keys c.srcs).Nodup) (id : Id) :
     (Keys (ops.foldl (applyOne cfg) c).srcs).Nodup ∧
@@ -311,5 +341,46 @@ theorem mem_candidateEntries (c : Ctrl) (hnd : (Keys c.srcs).Nodup) (id : Id) :
       obtain ⟨s, hs⟩ := Option.isSome_iff_exists.mp h1
       refine ⟨s, List.mem_filterMap.mpr ⟨(id, e), (mem_iff_lookup c.srcs hnd id e).mpr hl, ?_⟩⟩
       simp [h2, hs]
+
+/-! ### the message's snapshot is always the one held afterwards -/
+
+theorem stamp_refreshEntry (vals : List (Id × Cand)) (k : Id) (e : Entry) :
+    (refreshEntry vals k e).stamp = e.stamp ∧ ((refreshEntry vals k e).snap.isSome = e.snap.isSome) := by
+  unfold refreshEntry
+  split
+  · rename_i h _; simp [h]
+  · exact ⟨rfl, rfl⟩
+
+theorem stamp_progressEntry (t : Nat) (k : Id) (e : Entry) :
+    (progressEntry t k e).stamp = e.stamp ∧ (progressEntry t k e).snap = e.snap := by
+  unfold progressEntry
+  split <;> exact ⟨rfl, rfl⟩
+
+/-- after `source_message` for a registered id, the entry of that id carries the message's stamp and a snapshot —
+    whether or not `update_clock` returned early because another source was ahead -/
+theorem sourceMessage_stores (cfg : Cfg) (c : Ctrl) (id : Id) (snap : Cand) (t : Nat) (vals : List (Id × Cand))
+    (steer : List String) (e : Entry) (h : lookup c.srcs id = some e) :
+    ∃ e', lookup (sourceMessage cfg c id snap t vals steer).1.srcs id = some e' ∧ e'.stamp = t ∧
+      e'.snap.isSome = true ∧ e'.usable = e.usable ∧
+      (ahead (storeMsg c.srcs id snap t) t = true → e'.snap = some snap) := by
+  simp only [sourceMessage, h]
+  split
+  · rename_i ha
+    simp only [storeMsg, lookup_modify, h, if_true, Option.map_some]
+    exact ⟨_, rfl, rfl, rfl, rfl, fun _ => rfl⟩
+  · rename_i ha
+    simp only [updateClock_srcs, refresh, progress]
+    rw [lookup_mapVal _ (refreshEntry vals) id, lookup_mapVal _ (progressEntry t) id]
+    simp only [storeMsg, lookup_modify, h, if_true, Option.map_some]
+    refine ⟨_, rfl, ?_, ?_, ?_, ?_⟩
+    · rw [(stamp_refreshEntry _ _ _).1, (stamp_progressEntry _ _ _).1]
+    · rw [(stamp_refreshEntry _ _ _).2, (stamp_progressEntry _ _ _).2]; rfl
+    · have := abs_refreshEntry vals id (progressEntry t id { e with snap := some snap, stamp := t, time := t })
+      have h2 := abs_progressEntry t id { e with snap := some snap, stamp := t, time := t }
+      have := congrArg Prod.snd this
+      have h2 := congrArg Prod.snd h2
+      simp only at this h2
+      rw [this, h2]
+    · intro hc; exact absurd hc ha
 
 end NtpVerif.CtrlLoop
